@@ -299,7 +299,7 @@ func (s *Session) KnownStillFails(f Failer, c any, sig, what string) {
 		s.mu.Lock()
 		s.knownHits[sig]++
 		s.mu.Unlock()
-		fmt.Printf("KNOWN-FINDING: property=%s sig=%s %s (%s)\n", s.ID, sig, what, k.Desc)
+		fmt.Printf("KNOWN-FINDING: property=%s sig=%s %s\n", s.ID, sig, clip(what, 240))
 		return
 	}
 	s.Fail(f, c, sig, "%s", what)
@@ -486,3 +486,43 @@ func LoadReplay(id, sub string, c any) (ok bool, err error) {
 
 // ReplayMode is true when the driver asked for a replay only.
 func ReplayMode() bool { return os.Getenv("VERIF_REPLAY") != "" }
+
+// KnownReplays lists the committed reproductions of listed findings for a
+// property (files /verif/known/<ID>/*.json in replay format).
+func KnownReplays(id string) []string {
+	m, _ := filepath.Glob(filepath.Join(VerifDir(), "known", id, "*.json"))
+	sort.Strings(m)
+	return m
+}
+
+// LoadReplayFile decodes one replay file's case into c and returns its record.
+func LoadReplayFile(path string, c any) (Replay, error) {
+	var r Replay
+	b, err := os.ReadFile(path)
+	if err != nil {
+		return r, err
+	}
+	if err := json.Unmarshal(b, &r); err != nil {
+		return r, err
+	}
+	return r, json.Unmarshal(r.Case, c)
+}
+
+// KnownRecorder is a Failer that records instead of aborting; used by the
+// dedicated reproductions of listed findings.
+type KnownRecorder struct {
+	Failed bool
+	Msg    string
+}
+
+func (k *KnownRecorder) Fatalf(format string, args ...any) {
+	k.Failed = true
+	k.Msg = fmt.Sprintf(format, args...)
+}
+
+func clip(s string, n int) string {
+	if len(s) > n {
+		return s[:n] + "…"
+	}
+	return s
+}
